@@ -115,7 +115,7 @@ func (r *runner) check(o *Obs) []Violation {
 				if c == "<dir>" || strings.HasSuffix(p, ".audit.json") {
 					continue
 				}
-				if _, ok := r.expectedFiles()[p]; !ok {
+				if _, ok := r.expectedFiles()[p]; !ok && !has(r.spec.SourceFiles(), p) {
 					add("C04", "extra-file", p)
 				}
 			}
@@ -198,6 +198,28 @@ func (r *runner) check(o *Obs) []Violation {
 		for k := range started {
 			if r.coresOf(procOfKey(k)) > r.spec.MaxTasks {
 				add("C07", "oversize-started", "task "+k+" of the oversize process started")
+			}
+		}
+	}
+	// ---------------- C16(a): an unconnected in-port / parameter port is refused before anything runs
+	if r.wants("c16-unwired") {
+		if o.Outcome != "deadlock" && o.Outcome != "horizon" && !strings.HasPrefix(o.Outcome, "panic:") {
+			if !strings.HasPrefix(o.Outcome, "exit:") || o.Outcome == "exit:0" {
+				add("C16", "unwired-not-refused", "a port was left unconnected but the run ended with outcome '"+o.Outcome+"'")
+			}
+			for k := range started {
+				add("C16", "unwired-executed", "task "+k+" executed although the workflow is not fully wired")
+			}
+			if completed {
+				add("C16", "unwired-completed", "the program reached its completion marker")
+			}
+		}
+	}
+	// ---------------- C16(c): RunTo runs exactly the upstream closure
+	if r.wants("c16-runto") && o.Outcome == "" {
+		for k := range started {
+			if !r.ref.Ran[procOfKey(k)] {
+				add("C16", "runto-extra-process", "task "+k+" executed although its process is not upstream of the targets "+strings.Join(r.spec.RunTo, ","))
 			}
 		}
 	}
